@@ -692,23 +692,31 @@ Fixpoint assoc {K A} (eqb : K -> K -> bool) (k : K) (l : list (K * A)) : option 
 Definition tbl {K A} (eqb : K -> K -> bool) (l : list (K * res A)) (k : K) : res A :=
   match assoc eqb k l with Some r => r | None => Err EMissing end.
 
-Definition tbl_oracles
+(* string-keyed table with a shared key domain: keys of [dom] without an entry answer [Err dflt]
+   (most strings are rejected by most parsers); keys outside [dom] are missing *)
+Definition tbld {A} (dom : list pstr) (dflt : err) (l : list (pstr * res A)) (k : pstr) : res A :=
+  match assoc pstr_eqb k l with
+  | Some r => r
+  | None => if mem_str k dom then Err dflt else Err EMissing
+  end.
+
+Definition tbl_oracles (dom : list pstr)
   (t_float : list (pstr * res fl)) (t_str : list (jv * res pstr))
   (t_dt_iso t_date_iso t_time_iso : list (pstr * res pstr))
   (t_dt_ts_utc t_dt_ts_local t_date_ts : list (num * res pstr))
   (t_timeparse : list (pstr * res (option num))) (t_timedelta : list (num * res pstr))
   (t_decimal t_b64 : list (pstr * res pstr)) (t_json : list (pstr * res jv)) : oracles :=
-  {| o_float_of_str := tbl pstr_eqb t_float;
+  {| o_float_of_str := tbld dom EValue t_float;
      o_str := tbl jv_eqb t_str;
-     o_dt_iso := tbl pstr_eqb t_dt_iso;
-     o_date_iso := tbl pstr_eqb t_date_iso;
-     o_time_iso := tbl pstr_eqb t_time_iso;
+     o_dt_iso := tbld dom EValue t_dt_iso;
+     o_date_iso := tbld dom EValue t_date_iso;
+     o_time_iso := tbld dom EValue t_time_iso;
      o_dt_fromts := fun utc => tbl num_eqb (if utc then t_dt_ts_utc else t_dt_ts_local);
      o_date_fromts := tbl num_eqb t_date_ts;
-     o_timeparse := tbl pstr_eqb t_timeparse;
+     o_timeparse := tbld dom EMissing t_timeparse;
      o_timedelta := tbl num_eqb t_timedelta;
-     o_decimal := tbl pstr_eqb t_decimal;
-     o_b64 := tbl pstr_eqb t_b64;
+     o_decimal := tbld dom EOther t_decimal;
+     o_b64 := tbld dom EValue t_b64;
      o_json := tbl pstr_eqb t_json |}.
 
 (* ---- output encoding for the correspondence harness ----------------------- *)
